@@ -27,7 +27,7 @@ long g_seq;                  /* index of the event delivered last (-1: none) */
 int g_st;                    /* 0 outside a region, 1 just after OU[, 2 inside a non-empty region */
 long g_bad0_seq;             /* first event of the current non-empty region */
 int g_expect_exec;           /* the event just delivered closes a non-empty region: a plan must run now */
-unsigned long g_regions, g_empty;
+long g_regions, g_empty;       /* non-empty regions closed so far; empty regions */
 int g_step_failed;
 unsigned g_late;             /* a plan that was due did not run before the next step */
 
@@ -78,7 +78,7 @@ void qsort(void *b, size_t n, size_t s, int (*c)(const void *, const void *)) { 
 /* execute_sort_plan: call-logging contract (REPLACES the call).  Its requires are asserted at the call
  * site: a plan runs only when the spec says one is due, and with exactly the region the spec names. */
 struct ring *g_ring;
-unsigned long g_exec_calls; int g_exec_failed;
+long g_exec_calls; int g_exec_failed;
 int cr_execute_sort_plan(struct sortplan *sp)
 __CPROVER_requires(g_expect_exec == 1)
 __CPROVER_requires(sp->bad0 == EV(g_bad0_seq) && sp->next == EV(g_seq))
